@@ -5,24 +5,86 @@ caller}.  Each returns [s1, s1rc, s2] = [s'(r), cut-off term, s''(r)].
 
 Facets
   lennard_jones / inverse_power_law / harmonic_hertz
-        generated real parameters (python floats, numpy float64, python ints) through the named method or through
-        `caller`; oracles: (a) sympy-differentiated documented s(r) evaluated by mpmath with 40 digits,
+        generated real parameters (python floats, numpy float64, python ints, numpy int64) through the named method or
+        through `caller`; oracles: (a) sympy-differentiated documented s(r) evaluated by mpmath with 40 digits,
         (b) Richardson central differences of a separately hand-coded s(r) (40 digits), (c) Richardson central
         differences of the *returned* s1 as a function of r against the returned s2; cut-off term: s'(r_c) when
         shift is on, exactly 0 when off; harmonic/Hertz: the documented value 0 (and = s'(r_c) where r_c = sigma).
   caller
         the selector: random InteractionParams in which ALL fields are set (so a wrong branch or a wrong / dropped
         parameter shows), result = the named method with the parameters passed through = the reference.
+  call_sequence (+ call_sequence_long, thorough tier only: 8..30 evaluations)
+        2..6 evaluations of any models on ONE object (seeded C12-D).
+  variants (round 3)
+        2..4 parameter sets one field apart, evaluated in a drawn order on fresh objects in one process (generalises
+        seeded C12-A: anything memoised on a subset of the inputs).
   symbolic (supplementary, finite enumeration)
         the methods are pure arithmetic, so they are called with sympy Symbols; residuals s1 - ds/dr, s2 - d2s/dr2,
         s1rc - [ds/dr](r_c) must be identically 0 (simplify; if sympy cannot decide, 50-digit evaluation at fixed
         rational points decides).
 
 Preconditions imposed on the generator (documented domain):
-  r, epsilon, sigma, r_c > 0 (hessians.py L44-63 docstring); harmonic/Hertz: r <= sigma (the potential is defined
-  by (1 - r/sigma)^alpha, real only for r <= sigma when alpha is not an integer) and alpha >= 2 (s'' finite at
-  contact); IPL prefactor A is always passed explicitly to InteractionParams (its dataclass default is 0, the
-  method's default is 1.0 - `caller` passes what it is given).
+  r, epsilon, sigma, r_c > 0 (hessians.py L44-63 docstring).  harmonic/Hertz: the potential (1 - r/sigma)^alpha is real
+  for r <= sigma with any alpha, and for r > sigma with whole-number alpha only (python returns a complex number,
+  numpy nan, for a fractional power of a negative base) - so beyond contact alpha is drawn from {2..6};
+  alpha >= 2 at and next to contact (s'' finite), 1 <= alpha < 2 only strictly inside (1 - r/sigma >= 1e-3).
+  The IPL prefactor A is passed explicitly to InteractionParams (its dataclass default is 0, the method's default is
+  1.0 - `caller` passes what it is given); the method's default is exercised by inverse_power_law(n) where A = 1.
+  Not generated: array-valued r (documented as float; a scalar guard such as `if r > r_c` would be legitimate),
+  attribute re-assignment on an existing object (not a documented use; a constructor that precomputes would be legitimate).
+
+CLAUSES (statement + quantifier, one row per clause; counts = classes in evidence/C12.json, quick tier, seed 1)
+  clause / axis                          facet(s) and deciding assertion                          populated classes
+  -------------------------------------  -------------------------------------------------------  -----------------------------------
+  every distance r > 0                   model facets: |s1 - ref|, |s2 - ref| <= 1e-12 * term      r<sigma / r=sigma / r>sigma:
+                                         scale (+ Hertz conditioning); was r/sigma in (0.3, 3),    LJ 187/215/598, IPL 234/223/743,
+                                         Hertz r <= sigma only.  Round 3: scale-wide r/sigma in    Hertz 759/149/292; r<rc / r=rc /
+                                         (0.05, 10); Hertz beyond contact (whole alpha);           r>rc: LJ 659/186/155; region-
+                                         r == r_c exactly; whole-number r (python / numpy int)     beyond-contact 292 (alpha odd
+                                                                                                   156 / even 136); r-whole-number
+                                                                                                   107 / 180 / 72; scale-wide ~290
+  every energy / length scale            same; was eps in [0.1, 10], sigma in [0.5, 3].  Round 3:  num-py / np / int / npint:
+                                         eps 1e-6..1e6, sigma 1e-3..1e3 (scale-wide); numpy int64  473/325/92/110 (LJ); sigma-int>=12
+                                         and python int scales incl. sigma in {5,12,20,100,340}    48 / 111 / 113
+  every cutoff r_c                       s1rc vs s'(r_c) (1e-12 * scale at r_c); r_c in            r<rc, r=rc, r>rc above;
+                                         [1.1, 4] sigma (wide: up to 10 sigma), whole numbers      Hertz rc=sigma 635 / rc>sigma 565
+  every exponent n                       inverse_power_law: n int 4..18 and real; round 3: n in    n-int 942 / n-real 258; n<4 70,
+                                         1..48 / real (0.5, 48), numpy int64 n                     n>18 128; n-odd 313 / n-even 629;
+                                                                                                   n-type int 379 / float 452 / int64 111
+  every exponent alpha                   harmonic_hertz: alpha in [2, 3.5]; round 3: [1, 2)        alpha-2 287, 2.5 183, 3 181, <2 130,
+                                         inside contact, up to 6, whole alpha as int / int64       >3.5 176, real 243; alpha-type
+                                                                                                   float 911 / int 211 / int64 78
+  every prefactor A                      inverse_power_law: A in [0.1, 5]; round 3: 1e-3..1e3,     A>0 616, A=1 505, A<0 79;
+                                         both signs; A left to the documented default 1.0          mcall-default-A 150
+  s1 == ds/dr, s2 == d2s/dr2 exactly     40-digit reference + Richardson of hand-coded s (fd-ref)  fd-ref / fd-lib on every case with
+                                         + Richardson of the returned s1 (fd-lib); symbolic        r != sigma (1000/1200/1051)
+  cut-off term == s'(r_c) when shifting  compare_with_reference: s1rc; both directions             shift-on / shift-off ~50/50;
+  and 0 otherwise                        (exactly 0 demanded when off); Hertz: documented 0        shift-rep bool 690 / np.bool_ 128 /
+                                         round 3: flag as numpy.bool_ and as 0 / 1                 int01 182; call-default-shift 321
+  selector returns the requested model   caller: all fields set; == method (1e-13) == reference;   ip-kw 478 / ip-pos 222; ccall-kw 340;
+                                         round 3: InteractionParams positional, model by name /    lookup name 255 / attr 240 / value 205
+                                         attribute / value, caller(interaction_params=...)
+  "for every ..." as a function          purity re-evaluation in every model case; call_sequence   all 9 model transitions >= 160;
+  (no state between evaluations)         (one object, 2..6 models); round 3: variants              differs-in-<field> per relevant
+                                                                                                   field (see evidence), same-
+                                                                                                   parameters-twice 565
+  returned lists stay what they were     round 3 (EXTENSION_3 class 3): Alive keeps every returned  every case of every generated facet
+                                         list + a copy of its items; model facets (incl. the
+                                         r +- h evaluations), caller, call_sequence, variants
+                                         re-compare all of them at the end of the case
+  Weak before round 3: Hertz only inside contact (seeded C12-B / C12-C were caught by the symbolic facet through an
+  exception only); r never equal to r_c; n, alpha, A, eps, sigma in narrow positive ranges; A never defaulted; method
+  parameters always by keyword; shift always a python bool; no numpy integers; InteractionParams always by keyword;
+  separate objects never evaluated with parameter sets one field apart.
+
+EXTENSION_2 classes: 1 flag_audit: shift seen True/False (+0/1); A default, positional method arguments, keyword
+`caller` added; 2 r = r_c, r > r_c, beyond contact, alpha < 2, A < 0, n outside 4..18; 3 python / numpy integers for
+every parameter, numpy.bool_ / 0-1 flag; 4 value-gated paths: scale-wide magnitudes, large n, sigma >= 12 as integer;
+6 call_sequence, variants, purity; 9 n odd / even, alpha odd / even beyond contact, sign of A, sign of 1 - r/sigma;
+11 log-uniform magnitudes 1e-6..1e6 only (no subnormals), tolerances relative to the sum of |terms| of the reference.
+Not applicable: 5 (no integer quotient), 7 (no frames), 8 (no neighbour lists), 10 (no cell).
+EXTENSION_3: 3 applied (above); 2 model parameters also as numpy.float64 (num-np) next to python / numpy integers -
+float32 is out (results would carry float32 precision, undefined by the docs); 1 no size axis; 4 no batches.
 """
 from __future__ import annotations
 
@@ -41,9 +103,11 @@ from ..util import require
 from PyMatterSim.static.hessians import InteractionParams, ModelName, PairInteractions
 
 RULE = ("generated (r, epsilon, sigma, r_c, shift) x model parameters (n integer and real in [4,18], A in [0.1,5], "
-        "alpha in [2,3.5]) x argument number types x {named method, caller}; r/sigma in (0.3,3) (harmonic/Hertz: "
-        "r/sigma in (0.3,1]); non-trivial = epsilon != 1 and sigma != 1 and r != sigma and (model parameter differs "
-        "from the repository's single test point n=10, A=1, alpha=2)")
+        "alpha in [2,3.5]; wide class: n in (0.5,48], A = +-1e-3..1e3, alpha in [1,6], eps 1e-6..1e6, sigma 1e-3..1e3) x "
+        "argument number types (python / numpy floats and integers, bool / numpy.bool_ / 0-1 flag) x {named method, "
+        "caller} x call styles; r/sigma in (0.3,3), wide (0.05,10), r = sigma, r = r_c, r > r_c (harmonic/Hertz: "
+        "r/sigma in (0.3,1] for any alpha, (1,3] for whole-number alpha); non-trivial = epsilon != 1 and sigma != 1 and "
+        "r != sigma and (model parameter differs from the repository's single test point n=10, A=1, alpha=2)")
 ASSUMPTIONS = [
     "the documented s(r) of docs/hessian.md section I is the specification; derivatives by sympy, evaluated by mpmath "
     "with 40 digits (both trusted)",
@@ -52,18 +116,31 @@ ASSUMPTIONS = [
     "1 - r/sigma: 8 max(1,alpha) eps_mach / (1 - r/sigma)",
     "finite-difference oracles: Richardson O(h^4), h = 1e-5 (reference, 40 digits) / 1e-3 (library s1, float64) "
     "times the distance to the nearest singularity; tolerance 1e-7 of the term scale",
-    "harmonic/Hertz: only r <= sigma, alpha >= 2; cut-off term 0 as documented",
+    "harmonic/Hertz: r <= sigma with alpha >= 2 (1 <= alpha < 2 strictly inside contact), r > sigma with whole-number "
+    "alpha only (the documented s(r) is not real otherwise); cut-off term 0 as documented",
+    "a list returned earlier is never modified by a later evaluation (all generated facets re-compare every list they "
+    "received with a copy taken at return)",
+    "numpy / python integers, numpy.bool_ and 0/1 flags, positional arguments and the default A = 1.0 are inputs the "
+    "unchanged code accepts and the docs' examples use (ipl_n=10); arrays for r are not generated",
+    "the returned s1 difference oracle (fd-lib) carries a truncation term (h/r)^4 (n+2)(n+3)(n+4)(n+5)/480 <= 1.5e-8 "
+    "for n <= 48, inside its 1e-7 tolerance",
 ]
 MANIFEST = {
     "text": ("Generated-input differential check of PairInteractions.lennard_jones / inverse_power_law / "
              "harmonic_hertz / caller against sympy-differentiated documented potentials evaluated with 40-digit "
              "mpmath (rtol 1e-12 of the term scale), two independent Richardson finite-difference oracles, the "
-             "cut-off term under both shift settings, the selector with fully populated InteractionParams, plus a "
+             "cut-off term under both shift settings (flag as bool, numpy.bool_, 0/1), the selector with fully populated "
+             "InteractionParams (keyword / positional, model by name / attribute / value), ordinary and wide magnitudes, "
+             "python and numpy integer parameters, r = sigma, r = r_c, r > r_c, Hertz beyond contact for whole-number "
+             "alpha and 1 <= alpha < 2 inside contact, negative and defaulted prefactor; histories on one object "
+             "(call_sequence) and parameter sets one field apart on fresh objects in one process (variants); plus a "
              "supplementary finite facet that calls the methods with sympy Symbols and requires the residuals to "
-             "vanish identically (facets: lennard_jones, inverse_power_law, harmonic_hertz, caller, symbolic)."),
+             "vanish identically (facets: lennard_jones, inverse_power_law, harmonic_hertz, call_sequence, "
+             "call_sequence_long (thorough tier only), variants, caller, symbolic)."),
     "note": ("Sampling, not proof, for the numeric facets; the symbolic facet is an identity check of the closed forms "
              "as executed on sympy objects (valid because the methods contain only arithmetic and one `if shift`). "
-             "Trusted base: sympy diff/simplify, mpmath. Harmonic/Hertz restricted to r <= sigma, alpha >= 2."),
+             "Trusted base: sympy diff/simplify, mpmath. Harmonic/Hertz beyond contact only for whole-number alpha; "
+             "for r_c != sigma its cut-off term is the documented 0, not s'(r_c). Array-valued r is not explored."),
     "technique": ("property-based testing (Hypothesis): reference-model differential (computer-algebra derivative, "
                   "40-digit evaluation) + finite-difference metamorphic relation + finite symbolic-substitution "
                   "enumeration"),
@@ -75,6 +152,145 @@ GOLDEN = {"n": 10, "A": 1.0, "alpha": 2.0}
 
 # ----------------------------------------------------------------------------- strategies
 
+# whole-number parameters as an integer parameter matrix would hold them (HessianMatrix hands sigmas[i, j] on as it
+# is; the defect fixed by 8de5ede came from an integer `epsilons` array).  12^18 and 20^15 exceed int64: an
+# evaluation that raises sigma (not sigma/r) to the power n is only wrong for numpy integers of that size.
+_SIGMA_INT = [1, 2, 3, 1, 2, 3, 5, 12, 20, 100, 340]
+_NUM = ["py", "py", "py", "np", "np", "int", "npint"]
+_INTKINDS = ("int", "npint")
+
+
+def _pow10(lo, hi):
+    """10^u, u uniform in [lo, hi] in steps of 0.01 (log-uniform magnitudes, no subnormals, shrinks towards 10^lo)."""
+    return st.integers(int(round(lo * 100)), int(round(hi * 100))).map(lambda k: float(10.0 ** (k / 100.0)))
+
+
+@st.composite
+def case_st(draw, model=None, via=None):
+    model = model or draw(st.sampled_from(P.MODELS))
+    num = draw(st.sampled_from(_NUM))
+    scale = "ordinary" if num in _INTKINDS else draw(st.sampled_from(["ordinary", "ordinary", "ordinary", "wide"]))
+    if num in _INTKINDS:
+        # users write PairInteractions(r=.., epsilon=1, sigma=1, r_c=3): whole numbers for the scales
+        sigma = float(draw(st.sampled_from(_SIGMA_INT)))
+        eps = float(draw(st.one_of(st.integers(1, 10), st.just(100))))
+    elif scale == "wide":
+        sigma, eps = draw(_pow10(-3, 3)), draw(_pow10(-6, 6))
+    else:
+        sigma = draw(st.one_of(st.sampled_from([1.0, 2.0]), st.integers(50, 300).map(lambda k: k / 100.0),
+                               fl(0.5, 3.0)))
+        eps = draw(st.one_of(st.sampled_from([1.0, 2.0]), st.integers(10, 1000).map(lambda k: k / 100.0),
+                             fl(0.1, 10.0)))
+    r_int = False
+    alpha = None
+    if model == "harmonic_hertz":
+        region = draw(st.sampled_from(["generic", "generic", "generic", "near-contact", "contact", "beyond-contact",
+                                       "beyond-contact", "alpha<2"]))
+        if region == "contact":
+            x = 1.0
+            r_int = num in _INTKINDS
+        elif region == "near-contact":
+            x = 1.0 - draw(fl(1e-3, 2e-2))
+        elif region == "beyond-contact":
+            # (1 - r/sigma)^alpha is real beyond contact for whole-number alpha only (python gives a complex number,
+            # numpy nan, for a fractional power of a negative base): alpha in {2..6}, both parities
+            if num in _INTKINDS and draw(st.booleans()):
+                x, r_int = float(draw(st.sampled_from([2, 3]))), True
+            else:
+                x = draw(st.one_of(fl(1e-3, 2e-2).map(lambda d: 1.0 + d), st.integers(101, 300).map(lambda k: k / 100.0),
+                                   fl(1.001, 3.0)))
+            alpha = float(draw(st.sampled_from([2, 3, 4, 5, 6, 3, 2])))
+        else:
+            x = draw(st.one_of(st.integers(31, 99).map(lambda k: k / 100.0), fl(0.3, 0.999)))
+            if region == "alpha<2":
+                # 1 <= alpha < 2: s'' = eps/sigma^2 (alpha-1) (1 - r/sigma)^(alpha-2) is finite strictly inside contact
+                alpha = draw(st.one_of(st.sampled_from([1.0, 1.5]), fl(1.0, 1.999)))
+        c = 1.0 if draw(st.integers(0, 2)) < 2 and x <= 1.0 else draw(fl(1.1, 4.0))
+    else:
+        region = draw(st.sampled_from(["generic", "generic", "generic", "lj-minimum", "at-sigma", "at-cutoff"]))
+        if region == "lj-minimum":
+            x = 2.0 ** (1.0 / 6.0) * (1.0 + draw(st.sampled_from([0.0, 1e-9, -1e-7, 1e-4, -1e-3])))
+        elif region == "at-sigma":
+            x = 1.0
+            r_int = num in _INTKINDS
+        elif num in _INTKINDS and draw(st.integers(0, 3)) == 0:
+            x, r_int = float(draw(st.sampled_from([2, 3, 1]))), True
+        elif scale == "wide":
+            x = draw(_pow10(-1.3, 1.0))
+        else:
+            x = draw(st.one_of(st.integers(31, 299).map(lambda k: k / 100.0), fl(0.3, 3.0)))
+        c = draw(st.one_of(st.sampled_from([2.5, 1.48]), fl(1.1, 4.0), fl(4.0, 10.0) if scale == "wide" else fl(1.1, 4.0)))
+    r = sigma * x
+    rc = sigma * c
+    if num in _INTKINDS and c != 1.0:
+        rc = float(math.ceil(rc))
+    if model == "harmonic_hertz" and x <= 1.0 and r > sigma:   # rounding of sigma * x
+        r = sigma
+    if region == "at-cutoff":
+        r, r_int = rc, num in _INTKINDS       # r == r_c exactly: s1 and the cut-off term coincide when shifting
+    shift = draw(st.booleans())
+    if scale == "wide":
+        ntype = draw(st.sampled_from(["int", "real"]))
+        n = draw(st.integers(1, 48)) if ntype == "int" else draw(fl(0.5, 48.0))
+        A = draw(st.sampled_from([1.0, 1.0, -1.0])) * draw(_pow10(-3, 3))
+        if alpha is None:
+            alpha = draw(st.one_of(st.sampled_from([2.0, 2.5, 3.0, 4.0]), fl(2.0, 6.0)))
+    else:
+        ntype = draw(st.sampled_from(["int", "int", "real"]))
+        n = draw(st.integers(4, 18)) if ntype == "int" else draw(fl(4.0, 18.0))
+        A = draw(st.one_of(st.just(1.0), st.integers(10, 500).map(lambda k: k / 100.0), fl(0.1, 5.0)))
+        if alpha is None:
+            alpha = draw(st.one_of(st.sampled_from([2.0, 2.5, 3.0]), fl(2.0, 3.5)))
+    if ntype == "int" and num != "npint" and draw(st.booleans()):
+        n = float(n)
+    if float(alpha).is_integer() and (num == "npint" or draw(st.booleans())):
+        alpha = int(alpha)
+    via = via or draw(st.sampled_from(["method", "method", "caller"]))
+    mcall = draw(st.sampled_from(["kw", "pos", "default-A"]))
+    if mcall == "default-A" and draw(st.booleans()):
+        A = 1.0          # inverse_power_law(n) with the prefactor left to its documented default 1.0
+    return {"model": model, "r": float(r), "eps": float(eps), "sigma": float(sigma), "rc": float(rc), "shift": shift,
+            "n": n, "A": float(A), "alpha": alpha, "num": num, "via": via, "region": region, "scale": scale,
+            "r_int": bool(r_int and float(r).is_integer()),
+            "call": draw(st.sampled_from(["kw", "pos", "default-shift"])),
+            "shift_rep": draw(st.sampled_from(["bool", "bool", "bool", "bool", "np.bool_", "int01"])),
+            "mcall": mcall,
+            "ccall": draw(st.sampled_from(["pos", "kw"])),
+            "ip_style": draw(st.sampled_from(["kw", "kw", "pos"])),
+            "lookup": draw(st.sampled_from(["name", "attr", "value"]))}
+
+
+# ----------------------------------------------------------------------------- calling the code under test
+
+
+def _whole(x, kind):
+    """A whole number as python int or numpy.int64; anything else stays what it is."""
+    if isinstance(x, (float, np.floating)) and not float(x).is_integer():
+        return x
+    return np.int64(int(x)) if kind == "npint" else int(x)
+
+
+def make_pair(case, r=None):
+    k = case["num"]
+    exact_r = r is None
+    r = case["r"] if r is None else r
+    if k in _INTKINDS:
+        e, s, c = _whole(case["eps"], k), _whole(case["sigma"], k), _whole(case["rc"], k)
+        rr = _whole(r, k) if (exact_r and case.get("r_int")) else (np.float64(r) if k == "npint" else r)
+    else:
+        rr, e, s, c = (_num(v, k) for v in (r, case["eps"], case["sigma"], case["rc"]))
+    shift = case["shift"]
+    rep = case.get("shift_rep", "bool")
+    if rep == "np.bool_":
+        shift = np.bool_(shift)          # a flag taken out of a boolean array
+    elif rep == "int01":
+        shift = int(shift)
+    if case["call"] == "pos":
+        return PairInteractions(rr, e, s, c, shift)
+    if case["call"] == "default-shift" and case["shift"]:
+        return PairInteractions(r=rr, epsilon=e, sigma=s, r_c=c)  # documented default: shift=True
+    return PairInteractions(r=rr, epsilon=e, sigma=s, r_c=c, shift=shift)
+
 
 def _num(x, kind):
     """How the caller spells a number: python float, numpy float64 (what HessianMatrix passes), python int."""
@@ -83,95 +299,81 @@ def _num(x, kind):
     return x
 
 
-@st.composite
-def case_st(draw, model=None, via=None):
-    model = model or draw(st.sampled_from(P.MODELS))
-    num = draw(st.sampled_from(["py", "py", "np", "int"]))
-    if num == "int":
-        # users write PairInteractions(r=.., epsilon=1, sigma=1, r_c=3): python ints for the scales
-        sigma = float(draw(st.integers(1, 3)))
-        eps = float(draw(st.integers(1, 10)))
-    else:
-        sigma = draw(st.one_of(st.sampled_from([1.0, 2.0]), st.integers(50, 300).map(lambda k: k / 100.0),
-                               fl(0.5, 3.0)))
-        eps = draw(st.one_of(st.sampled_from([1.0, 2.0]), st.integers(10, 1000).map(lambda k: k / 100.0),
-                             fl(0.1, 10.0)))
-    if model == "harmonic_hertz":
-        region = draw(st.sampled_from(["generic", "generic", "generic", "near-contact", "contact"]))
-        if region == "contact":
-            x = 1.0
-        elif region == "near-contact":
-            x = 1.0 - draw(fl(1e-3, 2e-2))
-        else:
-            x = draw(st.one_of(st.integers(31, 99).map(lambda k: k / 100.0), fl(0.3, 0.999)))
-        c = 1.0 if draw(st.integers(0, 2)) < 2 else draw(fl(1.1, 4.0))
-    else:
-        region = draw(st.sampled_from(["generic", "generic", "generic", "lj-minimum", "at-sigma"]))
-        if region == "lj-minimum":
-            x = 2.0 ** (1.0 / 6.0) * (1.0 + draw(st.sampled_from([0.0, 1e-9, -1e-7, 1e-4, -1e-3])))
-        elif region == "at-sigma":
-            x = 1.0
-        else:
-            x = draw(st.one_of(st.integers(31, 299).map(lambda k: k / 100.0), fl(0.3, 3.0)))
-        c = draw(st.one_of(st.sampled_from([2.5, 1.48]), fl(1.1, 4.0)))
-    r = sigma * x
-    rc = sigma * c
-    if num == "int" and c != 1.0:
-        rc = float(math.ceil(rc))
-    if model == "harmonic_hertz" and r > sigma:   # rounding of sigma * x
-        r = sigma
-    shift = draw(st.booleans())
-    ntype = draw(st.sampled_from(["int", "int", "real"]))
-    n = draw(st.integers(4, 18)) if ntype == "int" else draw(fl(4.0, 18.0))
-    if ntype == "int" and draw(st.booleans()):
-        n = float(n)
-    A = draw(st.one_of(st.just(1.0), st.integers(10, 500).map(lambda k: k / 100.0), fl(0.1, 5.0)))
-    alpha = draw(st.one_of(st.sampled_from([2.0, 2.5, 3.0]), fl(2.0, 3.5)))
-    if model == "harmonic_hertz" and alpha in (2.0, 3.0) and draw(st.booleans()):
-        alpha = int(alpha)
-    via = via or draw(st.sampled_from(["method", "method", "caller"]))
-    call = draw(st.sampled_from(["kw", "pos", "default-shift"]))
-    return {"model": model, "r": float(r), "eps": float(eps), "sigma": float(sigma), "rc": float(rc), "shift": shift,
-            "n": n, "A": float(A), "alpha": alpha, "num": num, "via": via, "call": call, "region": region}
+def _par(case):
+    """Model parameters as the caller spells them (numpy.int64 exponents with an integer parameter set)."""
+    n, al = case["n"], case["alpha"]
+    A = case["A"]
+    if case["num"] == "npint":
+        n, al = _whole(n, "npint"), _whole(al, "npint")
+    elif case["num"] == "np":
+        n, A, al = np.float64(n), np.float64(A), np.float64(al)     # parameters read from a float array / loadtxt
+    return n, A, al
 
 
-# ----------------------------------------------------------------------------- calling the code under test
-
-
-def make_pair(case, r=None):
-    k = case["num"]
-    r = case["r"] if r is None else r
-    if k == "int":
-        e, s, c = int(case["eps"]), int(case["sigma"]), case["rc"]
-        c = int(c) if float(c).is_integer() else c
-        rr = r
-    else:
-        rr, e, s, c = (_num(v, k) for v in (r, case["eps"], case["sigma"], case["rc"]))
-    shift = case["shift"]
-    if case["call"] == "pos":
-        return PairInteractions(rr, e, s, c, shift)
-    if case["call"] == "default-shift" and shift:
-        return PairInteractions(r=rr, epsilon=e, sigma=s, r_c=c)  # documented default: shift=True
-    return PairInteractions(r=rr, epsilon=e, sigma=s, r_c=c, shift=shift)
+def a_default(case):
+    """The call leaves the prefactor to the documented default A = 1.0 (only possible where A is 1)."""
+    return case.get("mcall") == "default-A" and case["A"] == 1.0
 
 
 def call_method(case, pair):
     m = case["model"]
+    n, A, al = _par(case)
+    style = case.get("mcall", "kw")
     if m == "lennard_jones":
         return pair.lennard_jones()
     if m == "inverse_power_law":
-        return pair.inverse_power_law(n=case["n"], A=case["A"])
-    return pair.harmonic_hertz(alpha=case["alpha"])
+        if a_default(case):
+            return pair.inverse_power_law(n)
+        return pair.inverse_power_law(n, A) if style == "pos" else pair.inverse_power_law(n=n, A=A)
+    return pair.harmonic_hertz(al) if style == "pos" else pair.harmonic_hertz(alpha=al)
+
+
+def _model_name(case):
+    m = case["model"]
+    how = case.get("lookup", "name")
+    if how == "attr":
+        return getattr(ModelName, m)
+    if how == "value":
+        return ModelName({"lennard_jones": 1, "inverse_power_law": 2, "harmonic_hertz": 3}[m])
+    return ModelName[m]
 
 
 def call_caller(case, pair, full=False):
     m = case["model"]
-    kw = {}
-    if full or m == "inverse_power_law":
-        kw.update(ipl_n=case["n"], ipl_A=case["A"])
-    if full or m == "harmonic_hertz":
-        kw.update(harmonic_hertz_alpha=case["alpha"])
-    return pair.caller(InteractionParams(model_name=ModelName[m], **kw))
+    n, A, al = _par(case)
+    if full and case.get("ip_style") == "pos":
+        ip = InteractionParams(_model_name(case), n, A, al)      # field order model_name, ipl_n, ipl_A, harmonic_hertz_alpha
+    else:
+        kw = {}
+        if full or m == "inverse_power_law":
+            kw.update(ipl_n=n, ipl_A=A)
+        if full or m == "harmonic_hertz":
+            kw.update(harmonic_hertz_alpha=al)
+        ip = InteractionParams(model_name=_model_name(case), **kw)
+    if case.get("ccall") == "kw":
+        return pair.caller(interaction_params=ip)               # as tests/static/hessian_test.py calls it
+    return pair.caller(ip)
+
+
+class Alive:
+    """Results handed out earlier must stay what they were (EXTENSION_3 class 3): every returned list is kept together
+    with a copy of its items taken at return time; `recheck` compares all of them at the end of the case.  A work list
+    reused between calls (on the object, the class or the module) is right at return and wrong one call later."""
+
+    def __init__(self):
+        self.items = []
+
+    def keep(self, name, out):
+        if isinstance(out, (list, np.ndarray)):
+            self.items.append((name, out, list(out)))
+        return out
+
+    def recheck(self):
+        for name, out, snap in self.items:
+            now = list(out)
+            require(len(now) == len(snap) and all(a is b or a == b for a, b in zip(now, snap)),
+                    lambda: f"{name}: the list returned by this call was changed by a LATER call: "
+                            f"held {snap!r} at return, holds {now!r} now")
 
 
 def triple(name, out):
@@ -199,16 +401,23 @@ def _within(name, got, want, tol, case):
 
 
 def brief(case):
-    return {k: case[k] for k in ("model", "r", "eps", "sigma", "rc", "shift", "n", "A", "alpha", "via", "num")}
+    return {k: case[k] for k in ("model", "r", "eps", "sigma", "rc", "shift", "n", "A", "alpha", "via", "num", "r_int",
+                                 "call", "shift_rep", "mcall", "ccall", "ip_style", "lookup") if k in case}
+
+
+def beyond_contact(case):
+    return case["model"] == "harmonic_hertz" and case["r"] > case["sigma"]
 
 
 def compare_with_reference(name, vals, case, fd=True):
     m = case["model"]
     s1, s1rc, s2 = vals
     ref = P.derivs(m, case["r"], case["eps"], case["sigma"], case["rc"], case["n"], case["A"], case["alpha"])
+    for k in ("scale_s", "scale_s1", "scale_s2", "scale_s1_rc"):
+        ref[k] = abs(ref[k])      # the reference builds the scales for positive symbols; A < 0 flips their sign
     rt = mp.mpf(1e-12)
     if m == "harmonic_hertz":
-        gap = 1.0 - case["r"] / case["sigma"]
+        gap = abs(1.0 - case["r"] / case["sigma"])
         if gap > 0:
             rt = rt + 8 * max(1.0, float(case["alpha"])) * EPS / gap
     _within(f"{name}: s1 = ds/dr", s1, ref["s1"], rt * ref["scale_s1"], case)
@@ -219,12 +428,13 @@ def compare_with_reference(name, vals, case, fd=True):
                                    f"inputs {brief(case)}")
     else:
         _within(f"{name}: s1rc = ds/dr at r_c", s1rc, want_c, mp.mpf(1e-12) * ref["scale_s1_rc"], case)
-    if m == "harmonic_hertz" and case["rc"] == case["sigma"]:
-        # where the documented 0 and the true derivative coincide
+    if m == "harmonic_hertz" and case["rc"] == case["sigma"] and case["alpha"] > 1:
+        # where the documented 0 and the true derivative coincide (alpha = 1: s'(sigma) = -eps/sigma, documented 0)
         require(ref["s1_rc"] == 0, "reference: s'(sigma) of the Hertz potential should vanish")
     tags = []
     if fd:
-        f = P.fd_derivs(m, case["r"], case["eps"], case["sigma"], case["n"], case["A"], case["alpha"])
+        f = P.fd_derivs(m, case["r"], case["eps"], case["sigma"], case["n"], case["A"], case["alpha"],
+                        beyond_contact=beyond_contact(case) and float(case["alpha"]).is_integer())
         if f is not None:
             ft = mp.mpf(1e-7)
             _within(f"{name}: s1 vs Richardson difference of s", s1, f[0], ft * ref["scale_s1"] + rt * ref["scale_s1"],
@@ -238,7 +448,7 @@ def compare_with_reference(name, vals, case, fd=True):
 def lib_fd(case, get):
     """Richardson central difference of the library's own s1(r) -> compare with its s2."""
     r, sg = case["r"], case["sigma"]
-    rho = r if case["model"] != "harmonic_hertz" else min(r, sg - r)
+    rho = r if case["model"] != "harmonic_hertz" else min(r, abs(sg - r))
     if rho <= 0:
         return None
     h = 1e-3 * rho
@@ -257,6 +467,9 @@ def check(case):
     m, via = case["model"], case["via"]
     get = (lambda p: call_method(case, p)) if via == "method" else (lambda p: call_caller(case, p))
     name = f"{m} via {via}"
+    alive = Alive()
+    raw = get
+    get = lambda p: alive.keep(name, raw(p))  # noqa: E731
     vals = triple(name, get(make_pair(case)))
     ref, tags = compare_with_reference(name, vals, case)
     d = lib_fd(case, get)
@@ -268,15 +481,9 @@ def check(case):
     p = make_pair(case)
     again = [triple(name, get(p)), triple(name, get(p))]
     require(again[0] == again[1] == vals, f"{name}: repeated calls differ: {vals} {again}")
+    alive.recheck()          # incl. the results at r +- h of the difference oracle: same object class, other r
+    tags += [via] + class_tags(case)
     x = case["r"] / case["sigma"]
-    par = {"lennard_jones": "-", "inverse_power_law": "n-int" if float(case["n"]).is_integer() else "n-real",
-           "harmonic_hertz": "alpha-" + ("2" if case["alpha"] == 2 else "2.5" if case["alpha"] == 2.5 else
-                                         "3" if case["alpha"] == 3 else "real")}[m]
-    tags += [via, "shift-on" if case["shift"] else "shift-off", "num-" + case["num"], "region-" + case["region"],
-             "r<sigma" if x < 1 else "r=sigma" if x == 1 else "r>sigma", "r>rc" if case["r"] > case["rc"] else "r<=rc",
-             par, "call-" + case["call"]]
-    if m == "harmonic_hertz":
-        tags.append("rc=sigma" if case["rc"] == case["sigma"] else "rc>sigma")
     generic_par = {"lennard_jones": True,
                    "inverse_power_law": case["n"] != GOLDEN["n"] or case["A"] != GOLDEN["A"],
                    "harmonic_hertz": case["alpha"] != GOLDEN["alpha"]}[m]
@@ -284,12 +491,51 @@ def check(case):
     return {"nontrivial": nontrivial, "tags": tags}
 
 
+def class_tags(case):
+    """Class histogram: which region of every axis of the quantifier this case lies in."""
+    m = case["model"]
+    x = case["r"] / case["sigma"]
+    tags = ["shift-on" if case["shift"] else "shift-off", "shift-rep-" + case.get("shift_rep", "bool"),
+            "num-" + case["num"], "region-" + case["region"], "scale-" + case.get("scale", "ordinary"),
+            "r<sigma" if x < 1 else "r=sigma" if x == 1 else "r>sigma",
+            "r>rc" if case["r"] > case["rc"] else "r=rc" if case["r"] == case["rc"] else "r<rc",
+            "call-" + case["call"]]
+    if case.get("r_int"):
+        tags.append("r-whole-number")
+    if case["num"] in _INTKINDS and case["sigma"] >= 12:
+        tags.append("sigma-int>=12")
+    if m == "inverse_power_law":
+        n = float(case["n"])
+        tags += ["n-int" if n.is_integer() else "n-real", "n<4" if n < 4 else "n>18" if n > 18 else "n-4..18",
+                 "A<0" if case["A"] < 0 else "A=1" if case["A"] == 1.0 else "A>0"]
+        if n.is_integer():
+            tags.append("n-odd" if int(n) % 2 else "n-even")
+            tags.append("n-type-" + type(_par(case)[0]).__name__)
+        if case["via"] == "method":
+            tags.append("mcall-default-A" if a_default(case) else "mcall-" + ("pos" if case.get("mcall") == "pos" else "kw"))
+    if m == "harmonic_hertz":
+        al = float(case["alpha"])
+        tags.append("alpha-" + ("2" if al == 2 else "2.5" if al == 2.5 else "3" if al == 3 else
+                                "<2" if al < 2 else ">3.5" if al > 3.5 else "real"))
+        tags.append("rc=sigma" if case["rc"] == case["sigma"] else "rc>sigma")
+        tags.append("alpha-type-" + type(_par(case)[2]).__name__)
+        if x > 1:
+            tags.append("beyond-contact-alpha-odd" if int(al) % 2 else "beyond-contact-alpha-even")
+        if case["via"] == "method":
+            tags.append("mcall-" + ("pos" if case.get("mcall") == "pos" else "kw"))
+    if case["via"] == "caller":
+        tags += ["ccall-" + case.get("ccall", "pos"), "lookup-" + case.get("lookup", "name")]
+    return tags
+
+
 def check_caller(case):
     """Selector: all InteractionParams fields populated; result == named method == reference."""
     m = case["model"]
     name = f"caller({m})"
-    got = triple(name, call_caller(case, make_pair(case), full=True))
-    want = triple(f"{m}()", call_method(case, make_pair(case)))
+    alive = Alive()
+    got = triple(name, alive.keep(name, call_caller(case, make_pair(case), full=True)))
+    want = triple(f"{m}()", alive.keep(f"{m}()", call_method(case, make_pair(case))))
+    alive.recheck()
     for lab, g, w in zip(("s1", "s1rc", "s2"), got, want):
         require(abs(g - w) <= 1e-13 * abs(w),
                 lambda: f"{name}: {lab} = {g!r} but the named method with the same parameters gives {w!r}; "
@@ -297,20 +543,30 @@ def check_caller(case):
     compare_with_reference(name, got, case, fd=False)
     distinct = case["n"] != 12 and case["n"] != 6  # IPL(n=12) is one LJ term: keep the branches distinguishable
     return {"nontrivial": bool(distinct and case["eps"] != 1.0 and case["sigma"] != 1.0),
-            "tags": [m, "shift-on" if case["shift"] else "shift-off", "num-" + case["num"]]}
+            "tags": [m, "shift-on" if case["shift"] else "shift-off", "num-" + case["num"],
+                     "ip-" + case.get("ip_style", "kw"), "ccall-" + case.get("ccall", "pos"),
+                     "lookup-" + case.get("lookup", "name"), "scale-" + case.get("scale", "ordinary"),
+                     "shift-rep-" + case.get("shift_rep", "bool")]
+            + (["beyond-contact"] if beyond_contact(case) else [])}
 
 
 @st.composite
-def sequence_st(draw):
+def sequence_st(draw, nsteps=(2, 6)):
     """One PairInteractions object asked for several models in a drawn order (the library's own Hessian code and its
     test do exactly that).  Each answer must be the documented triple of THAT model with THAT call's parameters,
     whatever was evaluated on the object before (seeded C12-D: a prefactor stored by inverse_power_law(A) leaked into
     the next lennard_jones())."""
-    base = draw(case_st("harmonic_hertz"))        # r <= sigma: inside the domain of all three models
+    base = draw(case_st("harmonic_hertz"))
+    gap = 1.0 - base["r"] / base["sigma"]
     steps = []
-    for _ in range(draw(st.integers(2, 6))):
+    for _ in range(draw(st.integers(*nsteps))):
         c = draw(case_st())
-        steps.append({"model": c["model"], "n": c["n"], "A": c["A"], "alpha": c["alpha"],
+        al = c["alpha"]
+        if gap < 0:                       # beyond contact: whole-number spring exponents only
+            al = draw(st.sampled_from([2, 3, 4, 5, 2.0, 3.0]))
+        elif gap < 1e-3 and al < 2:       # at / next to contact: s'' needs alpha >= 2
+            al = 2.0
+        steps.append({"model": c["model"], "n": c["n"], "A": c["A"], "alpha": al, "mcall": c["mcall"],
                       "via": draw(st.sampled_from(["method", "caller", "caller-full"]))})
     base["steps"] = steps
     return base
@@ -319,16 +575,19 @@ def sequence_st(draw):
 def check_sequence(case):
     pair = make_pair(case)
     tags, models = [], []
+    alive = Alive()
     for k, stp in enumerate(case["steps"]):
-        c = dict(case, **{f: stp[f] for f in ("model", "n", "A", "alpha")})
+        c = dict(case, **{f: stp[f] for f in ("model", "n", "A", "alpha", "mcall") if f in stp})
         name = f"step {k} ({stp['model']} via {stp['via']}) after {models or 'nothing'} on one object"
         out = call_method(c, pair) if stp["via"] == "method" else call_caller(c, pair, full=stp["via"] == "caller-full")
-        compare_with_reference(name, triple(name, out), c, fd=False)
+        compare_with_reference(name, triple(name, alive.keep(name, out)), c, fd=False)
         models.append(stp["model"])
+    alive.recheck()
     pairs = {(a, b) for a, b in zip(models, models[1:])}
     tags += sorted({f"{a[:3]}->{b[:3]}" for a, b in pairs})
     tags.append("A!=1-before-lj" if any(s["model"] == "inverse_power_law" and s["A"] != 1.0 and
                                         "lennard_jones" in models[i + 1:] for i, s in enumerate(case["steps"])) else "other-order")
+    tags += ["num-" + case["num"], "beyond-contact" if beyond_contact(case) else "within-contact"]
     return {"nontrivial": bool(len(set(models)) >= 2), "tags": tags}
 
 
@@ -340,6 +599,93 @@ def describe_sequence(case):
 
 def describe(case):
     return brief(case)
+
+
+# ----------------------------------------------------------------------------- several objects, one field apart
+#
+# seeded C12-A cached the cut-off term per "type pair" with a key that omitted A.  The general class: 2..4 parameter
+# sets that differ from a base set in exactly ONE field (r, epsilon, sigma, r_c, shift, n, A, alpha - or in nothing),
+# evaluated in a drawn order on fresh objects in one process; every answer is compared with the reference for the
+# parameters of THAT evaluation.  Anything memoised on a subset of the inputs, at class or module level, gives the
+# second variant the first one's numbers.
+
+_FIELDS = ("r", "eps", "sigma", "rc", "shift", "n", "A", "alpha", "none")
+_RELEVANT = {"lennard_jones": ("r", "eps", "sigma", "rc", "shift"),
+             "inverse_power_law": ("r", "eps", "sigma", "rc", "shift", "n", "A", "n", "A"),
+             "harmonic_hertz": ("r", "eps", "sigma", "alpha", "alpha")}
+
+
+@st.composite
+def variants_st(draw):
+    base = draw(case_st())
+    hz = base["model"] == "harmonic_hertz"
+    beyond = hz and base["r"] > base["sigma"]
+    variants = [{}]
+    for _ in range(draw(st.integers(1, 3))):
+        # mostly a field the model depends on; sometimes one it must ignore, sometimes nothing at all
+        f = draw(st.sampled_from(_RELEVANT[base["model"]] * 2 + _FIELDS))
+        if f == "r":
+            # towards smaller r inside contact (stays inside), towards larger r beyond it (stays beyond)
+            v = {"r": base["r"] * draw(fl(1.05, 1.5) if (beyond or not hz) else fl(0.6, 0.95)), "r_int": False}
+        elif f == "eps":
+            v = {"eps": base["eps"] * draw(st.sampled_from([2.0, 0.5, 3.0]))}
+        elif f == "sigma":
+            # larger sigma keeps r inside contact; beyond contact a smaller one keeps r beyond
+            v = {"sigma": base["sigma"] * (0.5 if beyond else 2.0)}
+        elif f == "rc":
+            v = {"rc": base["rc"] * 2.0}
+        elif f == "shift":
+            v = {"shift": not base["shift"]}
+        elif f == "n":
+            v = {"n": base["n"] + draw(st.sampled_from([1, 2, 6]))}
+        elif f == "A":
+            v = {"A": base["A"] * draw(st.sampled_from([2.0, 0.5, -1.0]))}
+        elif f == "alpha":
+            v = {"alpha": base["alpha"] + draw(st.sampled_from([1, 2]))}   # stays a whole number / stays >= alpha
+        else:
+            v = {}
+        variants.append(v)
+    order = draw(st.lists(st.integers(0, len(variants) - 1), min_size=len(variants) + 1, max_size=2 * len(variants) + 2))
+    base["variants"] = variants
+    base["order"] = order
+    base["vias"] = [draw(st.sampled_from(["method", "caller", "caller-full"])) for _ in order]
+    return base
+
+
+def check_variants(case):
+    tags = set()
+    fields_seen = []
+    alive = Alive()
+    relevant = set(_RELEVANT[case["model"]])
+    for k, (i, via) in enumerate(zip(case["order"], case["vias"])):
+        v = case["variants"][i]
+        c = dict(case, **v)
+        if c["num"] in _INTKINDS and not all(float(c[f]).is_integer() for f in ("eps", "sigma", "rc")):
+            c["num"] = "py" if c["num"] == "int" else "np"       # a halved whole number is no longer one
+        what = ", ".join(f"{f} = {x!r}" for f, x in v.items() if f != "r_int") or "the base parameters"
+        name = (f"evaluation {k} ({c['model']} via {via}, {what}) after evaluations of variants "
+                f"{list(case['order'][:k])} in the same process")
+        pair = make_pair(c)
+        out = call_method(c, pair) if via == "method" else call_caller(c, pair, full=via == "caller-full")
+        compare_with_reference(name, triple(name, alive.keep(name, out)), c, fd=False)
+        fields_seen.append(frozenset(f for f in v if f != "r_int"))
+    alive.recheck()
+    for a in set(fields_seen):
+        for f in a:
+            tags.add("differs-in-" + f + ("" if f in relevant else "(irrelevant-to-model)"))
+    if frozenset() in fields_seen and fields_seen.count(frozenset()) >= 2:
+        tags.add("same-parameters-twice")
+    tags.add(case["model"])
+    tags.add("num-" + case["num"])
+    changed = {f for a in fields_seen for f in a}
+    return {"nontrivial": bool(len(set(case["order"])) >= 2 and (changed & relevant)), "tags": sorted(tags)}
+
+
+def describe_variants(case):
+    d = describe(case)
+    d["variants"] = case["variants"]
+    d["order"] = list(zip(case["order"], case["vias"]))
+    return d
 
 
 # ----------------------------------------------------------------------------- symbolic substitution (finite)
@@ -362,9 +708,9 @@ def symbolic_cases():
     for shift in (True, False):
         for via in ("method", "caller"):
             out.append({"model": "lennard_jones", "shift": shift, "via": via, "par": "-"})
-            for par in ("n,A symbolic", "n=6", "n=10", "n=12", "n=15/2"):
+            for par in ("n,A symbolic", "n=6", "n=10", "n=12", "n=15/2", "n=1", "n=3", "n=36"):
                 out.append({"model": "inverse_power_law", "shift": shift, "via": via, "par": par})
-            for par in ("alpha symbolic", "alpha=2", "alpha=5/2", "alpha=3"):
+            for par in ("alpha symbolic", "alpha=2", "alpha=5/2", "alpha=3", "alpha=1", "alpha=3/2", "alpha=4", "alpha=5"):
                 out.append({"model": "harmonic_hertz", "shift": shift, "via": via, "par": par})
     return out
 
@@ -442,18 +788,29 @@ _sym.replay = lambda case: guarded_check(symbolic_check, case)  # noqa: E731
 _MODEL_RULE = ("r/sigma, epsilon, sigma, r_c, shift, number types generated; oracle: 40-digit sympy/mpmath derivative "
                "+ two Richardson difference oracles; non-trivial as in RULE")
 FACETS = [
-    Facet("lennard_jones", case_st("lennard_jones"), check, quick=1000, thorough=40000, describe=describe,
+    Facet("lennard_jones", case_st("lennard_jones"), check, quick=1000, thorough=150000, describe=describe,
           rule=_MODEL_RULE, shards_quick=2),
-    Facet("inverse_power_law", case_st("inverse_power_law"), check, quick=1000, thorough=40000, describe=describe,
+    Facet("inverse_power_law", case_st("inverse_power_law"), check, quick=1200, thorough=150000, describe=describe,
           rule=_MODEL_RULE, shards_quick=2),
-    Facet("harmonic_hertz", case_st("harmonic_hertz"), check, quick=1000, thorough=40000, describe=describe,
+    Facet("harmonic_hertz", case_st("harmonic_hertz"), check, quick=1200, thorough=150000, describe=describe,
           rule=_MODEL_RULE, shards_quick=2),
-    Facet("call_sequence", sequence_st(), check_sequence, quick=800, thorough=30000, describe=describe_sequence,
+    Facet("call_sequence", sequence_st(), check_sequence, quick=800, thorough=80000, describe=describe_sequence,
+          shards_quick=2,
           rule="2..6 model evaluations (any of the three models, own parameters, via the method or the selector) on ONE "
                "PairInteractions object; every answer compared with the documented triple of that call; non-trivial = "
                ">= 2 different models in the sequence"),
-    Facet("caller", case_st(None, via="caller"), check_caller, quick=600, thorough=20000, describe=describe,
-          rule="all three models, every InteractionParams field populated; caller == named method (1e-13) == reference; "
-               "non-trivial = epsilon, sigma != 1 and n not in {6, 12}"),
+    Facet("call_sequence_long", sequence_st(nsteps=(8, 30)), check_sequence, quick=0, thorough=12000,
+          describe=describe_sequence,
+          rule="thorough tier only: 8..30 evaluations on ONE object; oracle as in call_sequence"),
+    Facet("variants", variants_st(), check_variants, quick=800, thorough=80000, describe=describe_variants,
+          shards_quick=2,
+          rule="2..4 parameter sets one field apart (r, epsilon, sigma, r_c, shift, n, A, alpha, or identical) evaluated "
+               "in a drawn order (each set at least once, some twice) on fresh objects in one process; every answer vs "
+               "the reference for the parameters of that evaluation; non-trivial = >= 2 different sets, differing in a "
+               "field the model depends on"),
+    Facet("caller", case_st(None, via="caller"), check_caller, quick=700, thorough=60000, describe=describe,
+          rule="all three models, every InteractionParams field populated (keyword or positional construction, model by "
+               "name / attribute / value, caller(ip) or caller(interaction_params=ip)); caller == named method (1e-13) "
+               "== reference; non-trivial = epsilon, sigma != 1 and n not in {6, 12}"),
     _sym,
 ]
